@@ -131,5 +131,295 @@ theorem collAdd_ok {o : ObjId} {c : Attr} {items : List ObjId} {st st' : St} {cd
         · simp only [St.setStore_store, Store.setRow]; exact hF.n
     · cases h
 
+/-- `SetInstance.remove` -/
+theorem collRemove_ok {fuel : Nat} {o : ObjId} {c : Attr} {items : List ObjId} {st st' : St} {cd : Side}
+    (hdel : DelSpec sch (fun x => delete sch fuel x))
+    (h : collRemove sch fuel o c items st = .ok st') (hc : sch.side c = some cd) (hcd : cd.isColl = true)
+    (ho : o < st.store.n) (hA : Agree sch st.store) (hR : Range st.store) :
+    Agree sch st'.store ∧ Range st'.store ∧ st'.store.n = st.store.n := by
+  unfold collRemove at h
+  split at h
+  · cases h
+  · rename_i hal
+    have hal' : st.store.alive o = true := by simpa using hal
+    split at h
+    · rename_i d rd hd hrd
+      rw [hc] at hd; cases hd
+      simp only at h
+      obtain ⟨st1, h1, h2⟩ := Res.bind_ok h
+      cases h2
+      have hrr := sch.rev_rev c
+      have hc' : sch.side (sch.rev (sch.rev c)) = some cd := by rw [hrr]; exact hc
+      have hold : ∀ x, x ∈ (List.range st.store.n).filter (fun x => items.contains x && st.store.mem o c x) ↔
+          x < st.store.n ∧ x ∈ items ∧ st.store.mem o c x = true := by
+        intro x; rw [mem_filter_range]; simp
+      generalize (List.range st.store.n).filter (fun x => items.contains x && st.store.mem o c x) = old at *
+      have e2 := hasB_coll_eq (sch := sch) (s := st.store) hc hcd
+      have e3 := hasB_coll_eq (sch := sch) (s := st1.store) hc hcd
+      split at h1
+      · rename_i hcoll
+        have hrd' : rd.isColl = false := by simpa using hcoll
+        have hne : c ≠ sch.rev c := Schema.ne_of_kinds hc hrd (by simp [hcd, hrd'])
+        split at h1
+        · -- one-to-many, cascade: the removed items are deleted
+          obtain ⟨hD1, hS1, _, hdead⟩ := iterDel_ok hdel (fun _ _ => False) (fun _ => False) _ _ _ h1
+            (fun x hx => ((hold x).mp hx).1) hR (D_false_iff.mpr hA)
+          have hA1 := D_false_iff.mp hD1
+          refine ⟨?_, ?_, ?_⟩
+          · intro p b q hp hal2 hh
+            simp only [St.setStore_store, Store.setRow] at hp hal2
+            simp only [St.setStore_store] at hh ⊢
+            rw [hasB_setRow hc hcd] at hh ⊢
+            have a1 := hA1 p b q hp hal2
+            have a2 := hdead p
+            have a3 := hdead q
+            grind [Schema.rev_rev, Schema.rev_inj]
+          · have hR1 := hS1.range hR
+            refine ⟨?_, ?_⟩
+            · intro p b x hp hx
+              simp only [St.setStore_store, Store.setRow] at hp hx ⊢
+              exact hR1.1 p b x hp hx
+            · intro p b x hp hx
+              simp only [St.setStore_store, Store.setRow] at hp hx ⊢
+              have r1 := hR1.2 p b x hp
+              grind
+          · simp only [St.setStore_store, Store.setRow]; exact hS1.n
+        · -- one-to-many, no cascade
+          obtain ⟨hH, hRf, hF, hM, hAl⟩ := iterClear_ok hrd hrd' hc' hcd _ _ _ h1
+          have e1 := hasB_ref_eq (sch := sch) (s := st.store) hrd hrd'
+          refine ⟨?_, ?_, ?_⟩
+          · intro p b q hp hal2 hh
+            simp only [St.setStore_store, Store.setRow] at hp hal2
+            rw [hF.n] at hp; rw [hF.alive] at hal2
+            simp only [St.setStore_store] at hh ⊢
+            rw [hasB_setRow hc hcd] at hh ⊢
+            have a1 := hA p b q hp hal2
+            have a2 := hH p b q
+            have a3 := hH q (sch.rev b) p
+            have a4 := hH o c q
+            have a5 := hH o c p
+            have a6 := hold q
+            have a7 := hold p
+            have a8 := hA o c q ho hal'
+            rw [hrr] at a2 a3 a4 a5
+            grind [Schema.rev_rev, Schema.rev_inj]
+          · refine ⟨?_, ?_⟩
+            · intro p b x hp hx
+              simp only [St.setStore_store, Store.setRow] at hp hx ⊢
+              rw [hF.n] at hp ⊢
+              rw [hRf] at hx
+              have := hR.1 p b x hp
+              grind
+            · intro p b x hp hx
+              simp only [St.setStore_store, Store.setRow] at hp hx ⊢
+              rw [hF.n] at hp ⊢
+              have r1 := hR.2 p b x hp
+              have r2 := hM p b x
+              grind
+          · simp only [St.setStore_store, Store.setRow]; exact hF.n
+      · -- many-to-many
+        rename_i hcoll
+        have hrd' : rd.isColl = true := by simpa using hcoll
+        obtain ⟨hH, hRf, hF, hM, hAs⟩ := reverseRemove_ok hrd hrd' o _ _ _ h1
+        refine ⟨?_, ?_, ?_⟩
+        · intro p b q hp hal2 hh
+          simp only [St.setStore_store, Store.setRow] at hp hal2
+          rw [hF.n] at hp; rw [hF.alive] at hal2
+          simp only [St.setStore_store] at hh ⊢
+          rw [hasB_setRow hc hcd] at hh ⊢
+          have a1 := hA p b q hp hal2
+          have a2 := hH p b q
+          have a3 := hH q (sch.rev b) p
+          have a4 := hH o c q
+          have a5 := hH o c p
+          have a6 := hold q
+          have a7 := hold p
+          have a8 := hA o c q ho hal'
+          have a9 := hR.2 p b q hp
+          grind [Schema.rev_rev, Schema.rev_inj]
+        · refine ⟨?_, ?_⟩
+          · intro p b x hp hx
+            simp only [St.setStore_store, Store.setRow] at hp hx ⊢
+            rw [hF.n] at hp ⊢
+            rw [hRf] at hx
+            exact hR.1 p b x hp hx
+          · intro p b x hp hx
+            simp only [St.setStore_store, Store.setRow] at hp hx ⊢
+            rw [hF.n] at hp ⊢
+            have r1 := hR.2 p b x hp
+            have r2 := hM p b x
+            grind
+        · simp only [St.setStore_store, Store.setRow]; exact hF.n
+    · cases h
+
+@[simp] theorem rewriteRow_store (isRev : Bool) (o : ObjId) (c : Attr) (f : ObjId → Bool) (st : St) :
+    (rewriteRow isRev o c f st).store = st.store.setRow o c f := by
+  unfold rewriteRow; cases isRev <;> rfl
+
+/-- `Set.__set__` (collection assignment, `clear`, and the collection attributes of a constructor call) -/
+theorem setCollCore_ok {del : ObjId → St → Res} {isRev : Bool} {o : ObjId} {c : Attr} {items : List ObjId} {st st' : St} {cd : Side}
+    (hdel : DelSpec sch del)
+    (h : setCollCore sch del isRev o c items st = .ok st') (hc : sch.side c = some cd) (hcd : cd.isColl = true)
+    (ho : o < st.store.n) (hitems : ∀ x ∈ items, x < st.store.n) (hA : Agree sch st.store) (hR : Range st.store) :
+    Agree sch st'.store ∧ Range st'.store ∧ st'.store.n = st.store.n := by
+  unfold setCollCore at h
+  split at h
+  · cases h
+  · rename_i hal
+    have hal' : st.store.alive o = true := by simpa using hal
+    split at h
+    · rename_i d rd hd hrd
+      rw [hc] at hd; cases hd
+      simp only at h
+      split at h
+      · cases h; exact ⟨hA, hR, rfl⟩
+      · obtain ⟨st2, h12, h2⟩ := Res.bind_ok h
+        cases h2
+        have hrr := sch.rev_rev c
+        have hc' : sch.side (sch.rev (sch.rev c)) = some cd := by rw [hrr]; exact hc
+        have hadd : ∀ x, x ∈ (List.range st.store.n).filter (fun x => items.contains x && !st.store.mem o c x) ↔
+            x < st.store.n ∧ x ∈ items ∧ st.store.mem o c x = false := by
+          intro x; rw [mem_filter_range]; simp
+        have hrem : ∀ x, x ∈ (List.range st.store.n).filter (fun x => st.store.mem o c x && !items.contains x) ↔
+            x < st.store.n ∧ st.store.mem o c x = true ∧ x ∉ items := by
+          intro x; rw [mem_filter_range]; simp
+        generalize (List.range st.store.n).filter (fun x => items.contains x && !st.store.mem o c x) = toAdd at *
+        generalize (List.range st.store.n).filter (fun x => st.store.mem o c x && !items.contains x) = toRemove at *
+        have e2 := hasB_coll_eq (sch := sch) (s := st.store) hc hcd
+        simp only [rewriteRow_store]
+        split at h12
+        · rename_i hcoll
+          have hrd' : rd.isColl = false := by simpa using hcoll
+          have hne : c ≠ sch.rev c := Schema.ne_of_kinds hc hrd (by simp [hcd, hrd'])
+          obtain ⟨st1, h1, h2⟩ := Res.bind_ok h12
+          obtain ⟨hH2, hRf2, hF2, hM2, hAl2⟩ := iterSet_ok hrd hrd' hc' hcd o _ _ _ h2
+          split at h1
+          · -- one-to-many, cascade
+            obtain ⟨hD1, hS1, hC1, hdead⟩ := iterDel_ok hdel (fun _ _ => False) (fun _ => False) _ _ _ h1
+              (fun x hx => ((hrem x).mp hx).1) hR (D_false_iff.mpr hA)
+            have hA1 := D_false_iff.mp hD1
+            have hR1 := hS1.range hR
+            have e1 := hasB_ref_eq (sch := sch) (s := st1.store) hrd hrd'
+            have e0 := hasB_ref_eq (sch := sch) (s := st.store) hrd hrd'
+            have e3 := hasB_coll_eq (sch := sch) (s := st1.store) hc hcd
+            refine ⟨?_, ?_, ?_⟩
+            · intro p b q hp hal2 hh
+              simp only [Store.setRow] at hp hal2
+              rw [hF2.n, hS1.n] at hp; rw [hF2.alive] at hal2
+              rw [hasB_setRow hc hcd] at hh ⊢
+              have hp1 : p < st1.store.n := by rw [hS1.n]; exact hp
+              have a1 := hA1 p b q hp1 hal2
+              have a2 := hH2 p b q
+              have a3 := hH2 q (sch.rev b) p
+              have a4 := hadd q
+              have a5 := hadd p
+              have a6 := hrem p
+              have a7 := hdead p
+              have a8 := hA o c q ho hal'
+              have a9 := hC1 q (sch.rev c) o
+              have a10 := hS1.mem o c p
+              have a11 := hR.2 o c p ho
+              have a12 := hS1.alive o
+              have a13 := hitems q
+              rw [hrr] at a2 a3
+              grind [Schema.rev_rev, Schema.rev_inj, List.contains_iff_mem]
+            · refine ⟨?_, ?_⟩
+              · intro p b x hp hx
+                simp only [Store.setRow] at hp hx ⊢
+                rw [hF2.n] at hp ⊢
+                rw [hRf2] at hx
+                have := hR1.1 p b x hp
+                have := hS1.n
+                grind
+              · intro p b x hp hx
+                simp only [Store.setRow] at hp hx ⊢
+                rw [hF2.n] at hp ⊢
+                have r1 := hR1.2 p b x hp
+                have r2 := hM2 p b x
+                have r3 := hitems x
+                have := hS1.n
+                grind
+            · simp only [Store.setRow]; rw [hF2.n, hS1.n]
+          · -- one-to-many, no cascade
+            obtain ⟨hH1, hRf1, hF1, hM1, hAl1⟩ := iterClear_ok hrd hrd' hc' hcd _ _ _ h1
+            have e0 := hasB_ref_eq (sch := sch) (s := st.store) hrd hrd'
+            refine ⟨?_, ?_, ?_⟩
+            · intro p b q hp hal2 hh
+              simp only [Store.setRow] at hp hal2
+              rw [hF2.n, hF1.n] at hp; rw [hF2.alive, hF1.alive] at hal2
+              rw [hasB_setRow hc hcd] at hh ⊢
+              have a1 := hA p b q hp hal2
+              have a2 := hH2 p b q
+              have a3 := hH2 q (sch.rev b) p
+              have b2 := hH1 p b q
+              have b3 := hH1 q (sch.rev b) p
+              have a4 := hadd q
+              have a5 := hadd p
+              have a6 := hrem p
+              have a7 := hrem q
+              have a8 := hA o c q ho hal'
+              have a9 := hRf1 q (sch.rev c)
+              have a10 := hRf1 p (sch.rev c)
+              have a11 := hR.2 p b q hp
+              have a13 := hitems q
+              rw [hrr] at a2 a3 b2 b3
+              grind [Schema.rev_rev, Schema.rev_inj, List.contains_iff_mem]
+            · refine ⟨?_, ?_⟩
+              · intro p b x hp hx
+                simp only [Store.setRow] at hp hx ⊢
+                rw [hF2.n, hF1.n] at hp ⊢
+                rw [hRf2, hRf1] at hx
+                have := hR.1 p b x hp
+                grind
+              · intro p b x hp hx
+                simp only [Store.setRow] at hp hx ⊢
+                rw [hF2.n, hF1.n] at hp ⊢
+                have r1 := hR.2 p b x hp
+                have r2 := hM2 p b x
+                have r3 := hM1 p b x
+                have r4 := hitems x
+                grind
+            · simp only [Store.setRow]; rw [hF2.n, hF1.n]
+        · -- many-to-many
+          rename_i hcoll
+          have hrd' : rd.isColl = true := by simpa using hcoll
+          obtain ⟨st1, h1, h2⟩ := Res.bind_ok h12
+          obtain ⟨hH1, hRf1, hF1, hM1, hAs1⟩ := reverseRemove_ok hrd hrd' o _ _ _ h1
+          obtain ⟨hH2, hRf2, hF2, hM2, hAs2⟩ := reverseAdd_ok hrd hrd' o _ _ _ h2
+          refine ⟨?_, ?_, ?_⟩
+          · intro p b q hp hal2 hh
+            simp only [Store.setRow] at hp hal2
+            rw [hF2.n, hF1.n] at hp; rw [hF2.alive, hF1.alive] at hal2
+            rw [hasB_setRow hc hcd] at hh ⊢
+            have a1 := hA p b q hp hal2
+            have a2 := hH2 p b q
+            have a3 := hH2 q (sch.rev b) p
+            have b2 := hH1 p b q
+            have b3 := hH1 q (sch.rev b) p
+            have a4 := hadd q
+            have a5 := hadd p
+            have a6 := hrem p
+            have a7 := hrem q
+            have a8 := hA o c q ho hal'
+            have a11 := hR.2 p b q hp
+            have a13 := hitems q
+            grind [Schema.rev_rev, Schema.rev_inj, List.contains_iff_mem]
+          · refine ⟨?_, ?_⟩
+            · intro p b x hp hx
+              simp only [Store.setRow] at hp hx ⊢
+              rw [hF2.n, hF1.n] at hp ⊢
+              rw [hRf2, hRf1] at hx
+              exact hR.1 p b x hp hx
+            · intro p b x hp hx
+              simp only [Store.setRow] at hp hx ⊢
+              rw [hF2.n, hF1.n] at hp ⊢
+              have r1 := hR.2 p b x hp
+              have r2 := hM2 p b x
+              have r3 := hM1 p b x
+              have r4 := hitems x
+              grind
+          · simp only [Store.setRow]; rw [hF2.n, hF1.n]
+    · cases h
+
 end ops
 end PonyVerif.Model.Rel
